@@ -216,8 +216,8 @@ struct Value {
         int64 = non_numeric ? 0 : atoll(v);
         if (int64 != 0 || !strcmp(v, "0")) {
             // verify
-            char buf[vlen + 1];
-            snprintf(buf, vlen + 1, "%" PRId64, int64);
+            char buf[32]; // (was a variable-length array of vlen + 1 bytes: a token of several megabytes on stdin overflowed the stack)
+            snprintf(buf, sizeof(buf), "%" PRId64, int64);
             if (!strcmp(buf, v)) {
                 // verified; can it be a hexstring too?
                 if (!(vlen & 1)) {
